@@ -95,6 +95,16 @@ func init() {
 		Scope: "safety form for all schedules (monitor rule): lock discipline; no store to cur outside ForceAcquire pushes it above size; with the lock free the first waiter never fits (no lost wake-up)",
 		Unverified: []string{"fairness of sync.Mutex and of the Go scheduler (eventual admission is reduced to the quiescent invariant)", "WaitEmpty (reads size without the lock; not among the operations the property quantifies over)"},
 	})
+	lexScope := "the lexer shared by the TL1 and TL2 parsers (generateTokens, nextToken and every lex* helper, for both language options) and the token iterator the parsers walk with: for every input string no index/slice/nil panic, every loop terminates, the unread text is always the suffix of the input at the current offset (so token positions and the positions of lexer errors lie inside the text), the token list ends with eof, iterators never run off the list and the iterator's own 'no eof token' panic is unreachable"
+	lexUnverified := []string{"the recursive-descent parse* functions (about 60; they rest on the iterator contracts proved here but are not under contract themselves)", "the recombination check of ParseTLFile (string concatenation of all tokens equals the input) and ConsolePrint", "positions of the errors validateTokens reports (they are token positions; that all token positions are in range is proved per token when it is cut, not carried as a list invariant)"}
+	props = append(props, &PropCfg{
+		ID: "C19", Pkgs: []string{"./internal/tlast"}, Funcs: "",
+		Scope: "TL1 half: " + lexScope, Unverified: lexUnverified,
+	})
+	props = append(props, &PropCfg{
+		ID: "C20", Pkgs: []string{"./internal/tlast"}, Funcs: "",
+		Scope: "TL2 half (LexerLanguage == TL2 is one of the cases of the same functions): " + lexScope, Unverified: append([]string{"tlparser_tl2_code.go"}, lexUnverified...),
+	})
 	props = append(props, &PropCfg{
 		ID:    "C30",
 		Pkgs:  []string{"./internal/tlcodegen"},
